@@ -83,3 +83,39 @@ Lemma plane_index_bound (bb : rect) x y :
 Proof.
   destruct bb as [[[bl bt] br] bb_]. unfold inside. intros H. nia.
 Qed.
+
+(* ---- sub-viewports *)
+Lemma is_zero_rect_false_inside r : is_zero_rect r = false -> r <> zero_rect.
+Proof. intros H E. subst. discriminate H. Qed.
+
+Lemma intersect_sub_zero vp' vp bb :
+  subrect vp' vp -> is_zero_rect (intersect vp bb) = true -> is_zero_rect (intersect vp' bb) = true.
+Proof.
+  intros S H. apply intersect_zero_iff. intros x y.
+  pose proof (proj1 (intersect_zero_iff vp bb) H x y) as Hz.
+  destruct (inside vp' x y) eqn:E; [|reflexivity].
+  rewrite (subrect_inside vp' vp x y S E) in Hz. exact Hz.
+Qed.
+
+Lemma intersect_subrect vp' vp bb :
+  subrect vp' vp -> is_zero_rect (intersect vp' bb) = false ->
+  subrect (intersect vp' bb) (intersect vp bb) /\ is_zero_rect (intersect vp bb) = false.
+Proof.
+  destruct vp' as [[[a0 a1] a2] a3], vp as [[[b0 b1] b2] b3], bb as [[[c0 c1] c2] c3].
+  unfold subrect, intersect. intros (H0 & H1 & H2 & H3).
+  destruct ((Z.min a2 c2 <=? Z.max a0 c0) || (Z.min a3 c3 <=? Z.max a1 c1)) eqn:E1.
+  - intros H. discriminate H.
+  - intros _.
+    destruct ((Z.min b2 c2 <=? Z.max b0 c0) || (Z.min b3 c3 <=? Z.max b1 c1)) eqn:E2; [lia|].
+    split; [lia|].
+    unfold is_zero_rect, rect_eqb, zero_rect. lia.
+Qed.
+
+Lemma inside_intersect_l vp bb x y : inside vp x y = true -> inside (intersect vp bb) x y = inside bb x y.
+Proof. intros H. rewrite inside_intersect, H. reflexivity. Qed.
+
+Lemma zero_intersect_not_inside vp bb x y :
+  is_zero_rect (intersect vp bb) = true -> inside vp x y = true -> inside bb x y = false.
+Proof.
+  intros Hz Hin. pose proof (proj1 (intersect_zero_iff vp bb) Hz x y) as H. rewrite Hin in H. exact H.
+Qed.
